@@ -521,9 +521,10 @@ def _extra_in_new_state(sc, extra=None):
 
 
 def _job_pair(arg):
-    pack0, extras, estimator, seed = arg
+    pack0, extras, estimator, seed = arg[:4]
+    kw = arg[4] if len(arg) > 4 else {}
     try:
-        return ("ok", ledger.pair_traces(pack0, extras, estimator, seed, PIS))
+        return ("ok", ledger.pair_traces(pack0, extras, estimator, seed, PIS, **kw))
     except Exception as e:  # noqa: BLE001
         return (
             "exc",
@@ -592,6 +593,32 @@ def c11(tier, seed):
         if not new_state and any(_extra_in_new_state(sc, x) for sc, x in zip(pack0, extras)):
             continue
         jobs.append((pack0, extras, ESTIMATORS[n % 2] if new_state else ESTIMATORS[n % 3], seed + 1000 + n))
+    # the end of the night: not a single outstanding unit anywhere (every estimator then takes its "nothing to model"
+    # branch), and a late unexpected unit still only adds its own votes (seeded change C11_F)
+    n_end = 0
+    for n in range(6 if tier == "quick" else 40):
+        policy = rnd.choice(["drop", "zero"])
+        levels = rnd.choice(ledger.LEVEL_LISTS)
+        pack0 = []
+        for _ in range(4):
+            sc = ledger.random_scenario(rnd, rnd.randint(3, 8), policy, False, levels)
+            sc["units"] = [u for u in sc["units"] if u["rep"] and u["inFeed"] and u["kind"] not in ("unexpNon",) and not u.get("hamlet")]
+            if sc["units"]:
+                pack0.append(sc)
+        if not pack0:
+            continue
+        extras = []
+        for sc in pack0:
+            x = ledger.random_extra(rnd, False)
+            known = sorted(ledger.states_with_units(sc) & {"S1", "S2"})
+            x["fstate"] = rnd.choice(known) if known else x["fstate"]
+            x["rep"] = True
+            extras.append(x)
+        if any(_extra_in_new_state(sc, x) for sc, x in zip(pack0, extras)):
+            continue
+        jobs.append((pack0, extras, ("gaussian", "nonparametric", "gaussian")[n % 3], seed + 2000 + n, {"ballast_non": 0}))
+        n_end += 1
+    run.witness("pairs_without_any_outstanding_unit", n_end)
     results = common.pool().map(_job_pair, jobs, chunksize=1)
     traces = []
     for k, (job, (status, val)) in enumerate(zip(jobs, results)):
